@@ -14,8 +14,10 @@ the blob under the digest they report whatever an interrupted run left under the
 TOC map by the converted digest, and that the shared map does not depend on the schedule.
 
 Premise for "any schedule": the only state shared by concurrent layer conversions of one converter
-instance is `esgzDigest2TOC`, written in one statement under `esgzDigest2TOCMu` (re-checked on the Go
-source by checks/C19.py on every run); a schedule of N conversions is then a permutation of their puts.
+instance is the layer-digest -> TOC map, whose writes are atomic (a mutex in the Go code).  The premise
+is OBSERVED on every run, not read off the source: many layers go through ONE converter instance lined
+up right before the map write, without and with the race detector, and the resulting TOC image is
+recomputed by the oracle; a schedule of N conversions is then a permutation of their puts.
 The option slices the converter closures capture are NOT covered by this premise (see the findings the
 harness replays: shared-opts).
 -/
